@@ -259,6 +259,28 @@ def judge_message(col: common.Collector, ll: codecrun.LoadedLayer, model: Dict[s
                             changed = True
                             break
                         changed = False
+                # a falsy value is a value: where the description gives a default, zero / the empty
+                # string are what the caller asked for, not a request for the default
+                if k == "VALUE" and p.get("default") is not None and kb == "ok" and pdu == eb.pdu:
+                    for falsy in (0, "", b"", 0.0):
+                        if falsy == vals[n] and type(falsy) is type(vals[n]):
+                            continue
+                        v2 = dict(vals)
+                        v2[n] = falsy
+                        ka, ea = codecrun.ref_encode(ll.ref, rq, v2, request)
+                        if ka != "ok" or ea.pdu == eb.pdu:
+                            continue  # (not a value of this parameter / no visible difference)
+                        e = codecrun.encode(obj, v2, request)
+                        col.ev()
+                        col.count("free-falsy-values-tried")
+                        if e.ok and e.value != ea.pdu:
+                            kd, rd = codecrun.ref_decode(ll.ref, rq, e.value, request)
+                            back = rd[0].get(n) if kd == "ok" else None
+                            if kd == "ok" and not refodx.values_equal(back, falsy):
+                                bad("free-but-value-ignored", kind_of[n],
+                                    f"{n}={falsy!r} is accepted, but the PDU {e.value.hex()} carries "
+                                    f"{back!r} (with the value it would be {ea.pdu.hex()})", values=v2)
+                                break
                 col.nontrivial((layout, "vary", kind_of[n].split("/")[0]))
                 if changed is False and tried >= 2:
                     bad("free-but-not-settable", kind_of[n],
@@ -393,8 +415,27 @@ def prefix_probe_layer() -> Dict[str, Any]:
     return m
 
 
+def widened_revision(model: Dict[str, Any]) -> Dict[str, Any]:
+    """The same layer (same names, same IDs) with its byte-sized integer DOPs one byte wider:
+    a later revision of a description, loaded by the same process."""
+    import copy
+    m = copy.deepcopy(model)
+    for o in m["dobjs"]:
+        d = o.get("dct") if o.get("t") == "DOP" else None
+        if d and d.get("k") == "STD" and d.get("base") in ("A_UINT32", "A_INT32") and \
+                d.get("mask") is None and d.get("enc") is None and d.get("bits") in (8, 16, 24):
+            d["bits"] += 8
+    return m
+
+
 def run_layer(task: Tuple, col: common.Collector) -> None:
     mode, model, tier, wseed = task
+    if mode == "compose+revision":
+        # what is reported for a description must not depend on what was loaded before it
+        run_layer(("compose", model, tier, wseed), col)
+        run_layer(("compose", widened_revision(model), tier, wseed + 1), col)
+        col.count("layers-followed-by-a-revision")
+        return
     r = random.Random(wseed)
     try:
         ll = codecrun.LoadedLayer(model)
@@ -434,8 +475,8 @@ def run(tier: str, col: common.Collector) -> None:
         # the check is cheap: a second, independently seeded set of random compositions
         comp += codeccompose.layers(tier, seed + 1000)[1:]
     for i, m in enumerate(comp):
-        tasks.append(("compose", m, tier, seed * 100019 + i))
-    tasks.append(("compose", prefix_probe_layer(), tier, seed + 9))
+        tasks.append(("compose+revision" if i % 4 == 0 else "compose", m, tier, seed * 100019 + i))
+    tasks.append(("compose+revision", prefix_probe_layer(), tier, seed + 9))
     common.pmap(run_layer, tasks, col)
     for need in ("cell:STD", "cell:compose", "static-length-known", "static-length-none",
                  "prefix-checked", "free-varied", "nonfree-probed", "dobjs-checked", "responses",
